@@ -18,7 +18,7 @@ PROPS = {
         "level_text": "Generated-input search: tens of thousands (quick) to millions (thorough) of list pairs covering every alignment pattern named in the property; "
                       "each compared with an independent reference of the formula under both methods. No counter-example = no violation among the generated classes, not a proof.",
         "level_note": "trusted: the reference formula in the harness (set based, 30 lines), Go float64 arithmetic, rapid's generators; tolerance 1e-9 relative",
-        "expect_classes": {"lists": ["no matching gene", "excess and disjoint", "gene-less side", "different lengths with disjoint genes", "both genomes carry the same id", "options carry a positive compatibility threshold"]},
+        "expect_classes": {"lists": ["no matching gene", "excess and disjoint", "gene-less side", "different lengths with disjoint genes", "both genomes carry the same id", "options carry a positive compatibility threshold", "matching gene disabled in both genomes"]},
     },
     "C18": {
         "run": "^TestC18",
@@ -228,7 +228,8 @@ PROPS = {
         "rule": "direct: non-trivial arrival = at least two robustly compatible species of which the first is not the closest (separates 'closest' from 'first compatible'); epochs: non-trivial turnover = more than one species afterwards; distinct by (arrival index, #species, #compatible, chosen, first compatible) / (epoch, #species, size)",
         "assumptions": ["representative of a species = its first organism at the time of the comparison", "threshold > 0"],
         "expect_classes": {"direct": ["arrival with several compatible species", "first compatible species is not the closest", "arrival founding a species while others exist", "several batches", "method:fast", "method:linear", "distance exactly equal to the threshold", "species removed between arrivals"],
-                           "epochs": ["member of a surviving species", "member of a new species", "founder of a species founded in this turnover", "species founded in a turnover in which another went extinct", "constructor:random", "constructor:read", "constructor:reread"]},
+                           "epochs": ["member of a surviving species", "member of a new species", "founder of a species founded in this turnover", "species founded in a turnover in which another went extinct", "another pre-existing species was compatible too", "constructor:random", "constructor:read", "constructor:reread"],
+                           "stepwise": ["babies arrive while several species are alive", "a species with a zero quota is alive while the babies arrive", "first compatible species is not the closest"]},
     },
     "C09": {
         "run": "^TestC09",
@@ -272,7 +273,7 @@ PROPS = {
         "level_note": "trusted: the canonical dump covers every exported field of organisms, genomes and species and the population counters; 'unrelated earlier work' is sampled by a fixed menu of interference, not enumerated",
         "rule": "G-epochs scenarios with the sequential executor, 1-20 (30) epochs, structural rates biased upwards; non-trivial = at least 5 epochs and the genomes grew (structural mutation and crossover took place); distinct by (constructor, epochs, size, program, seed, dump length)",
         "assumptions": ["the global math/rand source is seeded by the harness per run (go.mod go 1.23, so rand.Seed is effective; asserted at start-up)"],
-        "expect_classes": {"rerun": ["constructor:spawn", "constructor:random", "constructor:read", "constructor:reread", "fitness:genome", "genomes grew"]},
+        "expect_classes": {"rerun": ["constructor:spawn", "constructor:random", "constructor:read", "constructor:reread", "fitness:genome", "genomes grew", "modular start genome", "large population", "second run with options copied from a used object", "generated unrelated scenario between the runs"]},
     },
 }
 
